@@ -276,7 +276,7 @@ Proof. split; [vm_compute; reflexivity|]. split; [repeat constructor|vm_compute;
 (* ===================== round 5 (coverage): write notification, remove_after, compressed jobs =====================
    The op alphabet of the histories (hop) now also has HNotify n = the REAL write notification of the watcher
    (processNotification -> refreshFile -> checkFileWasTruncated -> tryResumeJobAndUnlock, then the pass) and HMaintExp n =
-   the maintenance tick with remove_after expired; no_trunc ops admits both, so every c06_history_* theorem above holds
+   the maintenance tick with remove_after expired; no_trunc ops allows both, so every c06_history_* theorem above holds
    for histories that contain them at any position. *)
 
 (* --- a write notification on a file that was not truncated below the read position is exactly a worker pass ------ *)
@@ -361,9 +361,9 @@ Theorem c06_lz4_pass_exact :
 Proof. exact lz4_pass_exact. Qed.
 Print Assumptions c06_lz4_pass_exact.
 
-(* --- end to end (which 8: the real Pipeline.In behind the worker): what reaches the OUTPUT are exactly the admitted
+(* --- end to end (which 8: the real Pipeline.In behind the worker): what reaches the OUTPUT are exactly the accepted
    complete lines of the content, every configuration, start offset, pass and read structure; events_of = what
-   checkInputBytes + the raw decoder make of a delivered (offset, data): (offset, admitted bytes without the newline,
+   checkInputBytes + the raw decoder make of a delivered (offset, data): (offset, accepted bytes without the newline,
    cut flag), nothing for a rejected line ------------------------------------------------------------------------ *)
 Theorem c06_events_do_not_depend_on_the_stand_in :
   forall c E E', 0 <= wmax c -> Forall2 (emitR c) E E' -> events_of c E = events_of c E'.
